@@ -228,7 +228,7 @@ let check_case acc ~klass ~with_info (c : wcfg) (ops : (string * string) list) =
      let x = { ex_block_size = mo.wo_block_size; ex_interval = mo.wo_interval; ex_comp = mo.wo_comp } in
      (match parse_table oracle_decompress (n_of_u64 c.prefix) (nl_of_string bytes) with
       | Inl code ->
-        viol "[C09,C01]" "file does not decode with the independent decoder" (Printf.sprintf "parse error %d" (int_of_n code));
+        viol "[C08,C09,C01]" "file does not decode with the independent decoder (so it does not hold the accepted entries)" (Printf.sprintf "parse error %d" (int_of_n code));
         (* is it the trailer that lies?  the statistics that locate the index block must be consistent with the file
            itself: index offset = initial offset + bytes of data blocks, and index offset + index bytes + trailer = end *)
         let n = String.length bytes in
@@ -387,6 +387,9 @@ let writer_init_fresh acc =
     [ ("none", []); ("few", [ ("a", "1"); ("b", "2"); ("a", "refused"); ("c", String.make 9000 'x') ]);
       ("many", List.init 600 (fun i -> (Printf.sprintf "key%05d" i, String.make (i mod 97) 'v'))) ]
 
+(* every 37th add repeated (refused: equal key) and every 53rd followed by a smaller key (refused) *)
+let with_refusals es = List.concat (List.mapi (fun i (k, v) -> if i mod 37 = 36 then [ (k, v); (k, v) ] else if i mod 53 = 52 then [ (k, v); (String.sub k 0 3, v) ] else [ (k, v) ]) es)
+
 let run ~tier ~seed ~only acc =
   let idx = ref 0 in
   let want () = cur_index := !idx; (match only with None -> true | Some i -> i = !idx) in
@@ -409,7 +412,16 @@ let run ~tier ~seed ~only acc =
     ("block_size_4g", { nocfg with block_size = Some (1 lsl 32) }, rentries_blocks (case_rng ~seed:9 ~engine ~index:0) ~nkeys:60 ~vlen:200);
     ("block_size_4g", { nocfg with block_size = Some ((1 lsl 32) + 4096); comp = 2 }, rentries_blocks (case_rng ~seed:10 ~engine ~index:0) ~nkeys:90 ~vlen:300);
     ("block_size_4g", { nocfg with block_size = Some (1 lsl 40); prefix = 77L }, rentries_blocks (case_rng ~seed:11 ~engine ~index:0) ~nkeys:30 ~vlen:100);
-  ] in
+    (* blocks whose builder buffer has to grow while it holds entries (the ubuf starts at 64 KiB): raw blocks of about
+       40 KB (growth when the restart array is appended) and 70 KB (growth inside an add), with refused adds in between - the
+       extracted model is quadratic in the block size, which bounds these cases *)
+    ("big_block", { nocfg with block_size = Some 40000 }, with_refusals (List.init 900 (fun i -> (Printf.sprintf "key%06d" i, String.make (60 + i mod 50) 'v'))));
+    ("big_block", { nocfg with block_size = Some 70000; comp = 2 }, with_refusals (List.init 1300 (fun i -> (Printf.sprintf "key%06d" i, String.make (60 + i mod 50) (Char.chr (97 + i mod 26))))));
+  ] @ (if tier <> "thorough" then [] else [
+    (* an index block above 32 KiB (its builder grows when the restart array is appended): about ten minutes, the engine's
+       per-block checks walk the file list from its start *)
+    ("big_index", { nocfg with block_size = Some 1024 }, List.init 1250 (fun i -> (Printf.sprintf "a-rather-long-key-prefix-%08d" (i * 7), String.make 1000 (Char.chr 120))));
+  ]) in
   List.iter (fun (klass, c, ops) -> if want () then check_case acc ~klass ~with_info:true c ops; incr idx) directed;
   (* every separator pair with the block cut forced between the two keys *)
   List.iter (fun (a, b) ->
